@@ -282,6 +282,9 @@ def run(tier):
     from . import uridecode
     n = uridecode.check(rep, F)
     rep.extra["percent_decoding_cases"] = n
+    # (d') '!name': what scan_tag_handle read before it turned out not to be a handle is put back in front of the suffix
+    from . import taghead
+    rep.floor("head lengths for which the copy of the tag head is tabulated", taghead.check(rep, F), 5)
     # ... and no '%' reaches tag text undecoded: in the functions that call the decoder, a character copied from the cursor is never '%'
     # (E1 pass B: the class window at each push site)
     from . import classdom
